@@ -359,6 +359,61 @@ def all_parameters_renamed_factory(source_texts):
     return apply
 
 
+def keyword_arguments_factory(source_texts):
+    """Calls of private methods whose name is unique in the package (so the callee is known from the name alone) pass
+    their positional arguments by keyword instead.  The receiver decides the offset: ``self.__m(a)`` / ``cls.__m(a)``
+    / ``Class.__m(a)`` of a static or class method bind ``a`` to the first parameter after self / cls."""
+    definitions = {}
+    nodes = {}
+    for text in source_texts:
+        tree = ast.parse(text)
+        for klass in ast.walk(tree):
+            if not isinstance(klass, ast.ClassDef):
+                continue
+            for node in klass.body:
+                if isinstance(node, (ast.FunctionDef, ast.AsyncFunctionDef)):
+                    definitions[node.name] = definitions.get(node.name, 0) + 1
+                    nodes[node.name] = node
+        for node in ast.walk(tree):
+            if isinstance(node, (ast.FunctionDef, ast.AsyncFunctionDef)) and node.name not in nodes:
+                definitions[node.name] = definitions.get(node.name, 0) + 2  # not a method: left alone
+    usable = {}
+    for name, count in definitions.items():
+        node = nodes.get(name)
+        if count != 1 or node is None or not (name.startswith("__") and not name.endswith("__")):
+            continue
+        if node.args.vararg or node.args.kwarg or node.args.posonlyargs:
+            continue
+        static = any(isinstance(d, ast.Name) and d.id == "staticmethod" for d in node.decorator_list)
+        params = [a.arg for a in node.args.args]
+        usable[name] = params if static else params[1:]
+
+    class Keywords(ast.NodeTransformer):
+        def visit_Call(self, node: ast.Call) -> ast.AST:
+            self.generic_visit(node)
+            if not isinstance(node.func, ast.Attribute) or node.func.attr not in usable:
+                return node
+            if any(isinstance(a, ast.Starred) for a in node.args) or any(k.arg is None for k in node.keywords):
+                return node
+            params = usable[node.func.attr]
+            if len(node.args) > len(params) or len(node.args) < 2:
+                return node
+            given = {k.arg for k in node.keywords}
+            names = params[: len(node.args)]
+            if given & set(names):
+                return node
+            node.keywords = [ast.keyword(arg=name, value=value) for name, value in zip(names, node.args)] + node.keywords
+            node.args = []
+            return node
+
+    def apply(text: str) -> str:
+        tree = Keywords().visit(ast.parse(text))
+        ast.fix_missing_locations(tree)
+        return ast.unparse(tree)
+
+    return apply
+
+
 def string_constants_hoisted(text: str) -> str:
     """every string literal that is a call argument, a comparand, a subscript key or an element of a list / tuple /
     set display and occurs at least twice in the module becomes a module-level constant ``_K_<n>``"""
@@ -639,6 +694,7 @@ TRANSFORMS = {
     "typing": ("every annotation modernised: X | None, A | B, list[...], dict[...]", _by_transformer(ModernTyping)),
     "strconst": ("every string literal used twice or more in a module hoisted into a module-level constant", string_constants_hoisted),
     "clsconst": ("every string literal used twice or more by the methods of a class hoisted into a private class constant", class_constants_hoisted),
+    "kwargs": ("calls of uniquely named private methods pass their positional arguments by keyword", None),
     "params": ("every parameter of a private function that is never passed by keyword renamed", None),
     "params2": ("every parameter of every uniquely named function renamed, keywords at its call sites included", None),
 }
@@ -647,6 +703,9 @@ TRANSFORMS = {
 def transformed_overlay(source: Source, name: str, files=None):
     if name == "params":
         function = parameters_renamed_factory([source.read(rel, raw=True) for rel in source.python_files()])
+        return {rel: function(source.read(rel, raw=True)) for rel in (files or source.python_files())}
+    if name == "kwargs":
+        function = keyword_arguments_factory([source.read(rel, raw=True) for rel in source.python_files()])
         return {rel: function(source.read(rel, raw=True)) for rel in (files or source.python_files())}
     if name == "params2":
         function = all_parameters_renamed_factory([source.read(rel, raw=True) for rel in source.python_files()])
